@@ -161,6 +161,12 @@ func (x *Exec) doCall(fr *Frame, st *State, call *ssa.CallCommon, ins *ssa.Call,
 		if x.topContract != nil && x.topContract.Opts["purecalls"] != "" {
 			// `opt purecalls`: function values received from the caller (hash functions) are assumed not to write memory
 			x.C.trusted["function values called by "+x.topContract.Name+" do not modify memory (opt purecalls)"] = true
+			if x.topContract.Opts["countcalls"] != "" {
+				// ghost state: number of calls made through function values so far (contract term `dyncalls()`), kept in
+				// a pseudo heap region so that joins merge it and loop cuts / unknown callees havoc it like any other state
+				h := x.heapGet(st, dynCallsRegion, SArr(SRef, SIdx))
+				x.heapSet(st, dynCallsRegion, Store(h, BVInt(0, 32), bvBin("bvadd", Select(h, BVInt(0, 32)), BVInt(1, 64))))
+			}
 			return wrap(x.havocResults(st, sig, "dyn")), nil
 		}
 		x.C.Note("call through a symbolic function value (results and heap havocked)")
@@ -169,6 +175,9 @@ func (x *Exec) doCall(fr *Frame, st *State, call *ssa.CallCommon, ins *ssa.Call,
 	}
 	return nil, unsupported("call of %T", fnv)
 }
+
+// dynCallsRegion: ghost counter of calls through function values (`opt countcalls`, contract term `dyncalls()`).
+const dynCallsRegion = "G:dyncalls"
 
 func (x *Exec) havocResults(st *State, sig *types.Signature, hint string) []Val {
 	var out []Val
